@@ -32,6 +32,7 @@ func c02Pool() []poolVal {
 		{`"5"`, "str-numeric-lit", ""}, {`("" + "5")`, "str-numeric-cat", ""}, {`"০৫"`, "str-numeric-bn", ""}, {`"a b"`, "str-lit", ""},
 		// canonically equivalent but differently spelled strings are different strings
 		{"\"\u09df\"", "str-nfc-composed", ""}, {"\"\u09af\u09bc\"", "str-nfc-decomposed", ""}, {"\"\u00e9\"", "str-nfc-composed", ""}, {"(\"e\" + \"\u0301\")", "str-nfc-decomposed", ""},
+		{`("" + 5)`, "str-from-number", ""}, {`("" + 0)`, "str-from-number", ""}, {`(5 + "")`, "str-from-number", ""},
 		{`"%"`, "str-percent", ""}, {`"%d%s"`, "str-percent", ""},
 		{"[]", "arr", ""}, {"[1]", "arr", ""}, {"[1, 2]", "arr", ""},
 		{"{}", "obj", ""}, {"{k: 1}", "obj", ""},
